@@ -345,18 +345,23 @@ PROPS = {
               "failing operation ends the request and its partial effect stays (c13_first_error_stops, c13_error_is_first_failure, c13_no_rollback); with it every operation is attempted "
               "(c13_best_effort_tree, c13_best_effort_attempts_all); UnmarshalNotifications is the sequence of per-notification requests and an atomic notification deletes the subtree at its prefix "
               "first (c13_notifs_are_requests(_fold), c13_atomic_replaces_prefix). Reference semantics on the leaf map (spec_delete/spec_update/spec_replace/spec_set, Tree/SetReqSpec.v): "
-              "c13_refines_scalar, c13_history, c13_atomic_leaves derive 'leaves after = spec(leaves before)' for scalar payloads on leaf/leaf-list paths from the two per-operation statements "
-              "leaves_after_delete_stmt / leaves_after_set_leaf_stmt (explicit premises). The same reference semantics is the implementation-side oracle of the setreq stream.",
-        note="Trusted: Coq kernel; hand transcription of ytypes/gnmi.go and node.go tied by the setreq, setreqkeys and nodeops streams; Go maps as sorted association lists. The premises "
-             "c13_delete_premise / c13_set_premise are statements about Tree/Node.v (C10/C12), tested on the stream cases by Corr/SetReqSpecCorr.v but not proved.",
-        coq_files=["Tree/SetReq", "Tree/SetReqSpec", "Tree/SetReqProofs", "Tree/GnmiStatements", "Corr/GnmiCorr", "Corr/SetReqSpecCorr"],
+              "c13_refines_unconditional, c13_history_unconditional, c13_atomic_leaves_unconditional: 'leaves after = spec(leaves before)' for scalar payloads on leaf/leaf-list paths, for "
+              "every guarded request, request history and atomic notification (the two per-operation statements leaves_after_delete_stmt / leaves_after_set_leaf_stmt are proved). The same reference semantics is the implementation-side oracle of the setreq stream.",
+        note="Trusted: Coq kernel; hand transcription of ytypes/gnmi.go and node.go tied by the setreq, setreqkeys and nodeops streams; Go maps as sorted association lists. The premises are proved "
+             "(c13_delete_premise_holds / c13_set_premise_holds, by induction on the fuel of set_rec / del_rec in lock-step with the schema walk); Corr/SetReqSpecCorr.v remains as a differential test.",
+        coq_files=["Tree/SetReq", "Tree/SetReqSpec", "Tree/SetReqProofs", "Tree/LeavesBridgeProofs", "Tree/LeavesPartsProofs", "Tree/LeavesSetProofs", "Tree/LeavesDelProofs", "Tree/SetReqBridgeProofs",
+                   "Tree/GnmiStatements", "Corr/GnmiCorr", "Corr/SetReqSpecCorr"],
         streams=[dict(name="setreq", n=N(700, 6000)), dict(name="setreqkeys", n=N(300, 900))],
         signatures=["setrequest/", "gnmi/empty-type", "gnmi/empty-leaflist", "union/wrapper-binary-unsettable"],
         trusted=["schema translator and tree printer (tree.go)", "float and key oracle tables produced by the harness"],
-        partial="c13_refines_scalar / c13_history / c13_atomic_leaves are conditional on the two per-operation lemmas (c13_delete_premise, c13_set_premise: leaves after DeleteNode / SetNode on guarded "
-                "targets); guards: no key-leaf targets, scalar payloads of the leaf's type, paths with complete canonical sorted keys, no ordered list on the path; JSON payloads are covered by the "
-                "structural theorems only. c13_noncanonical_key_keeps_entry: since fix 8c0e3a71 a non-canonically spelled key acts on the existing entry. Refuted on the model (and the implementation): c13_refuted_ordered_list_merge (C31 limitation), "
-                "c13_refuted_empty_leaflist, c13_refuted_best_effort_panic (NaN decimal64 key).",
+        partial="c13_refines_unconditional / c13_history_unconditional / c13_history_notifs_unconditional / c13_atomic_leaves_unconditional hold without premises inside executable guards. Invariant "
+                "c13_inv2b = c13_schemab (gn_schemab: field path alternatives pairwise incomparable, no empty name, key lookups agree; swfb; every non-leaf field has one path) && root_okb (fields in "
+                "struct order, kinds match, key leaves = map key, keys read back from their strings, Go-map entries in canonical order); the invariant is preserved by every guarded request. Requests: no "
+                "key-leaf targets, scalar payloads of the leaf's type, paths with complete canonical name-sorted keys, no ordered or unkeyed list on the path. JSON payloads are covered by the structural "
+                "theorems only. With tree_ok in place of root_ok the per-operation statements are false on the model (c13_set_premise_refuted: decimal64 payload outside the float oracle tables; "
+                "c13_delete_premise_refuted: Go-map entries out of canonical order); both are artefacts of the model's representation. The conditional forms c13_refines_scalar / c13_history / "
+                "c13_atomic_leaves stay for arbitrary sem / Inv / guards. c13_noncanonical_key_keeps_entry (fix 8c0e3a71), c13_refuted_ordered_list_merge (C31 limitation), c13_refuted_empty_leaflist, "
+                "c13_refuted_best_effort_panic (NaN decimal64 key).",
     ),
     "C14": dict(
         level="proof",
